@@ -171,7 +171,16 @@ func (g *gen) emit(c Case, group string) {
 	for _, a := range c.A {
 		key += fmt.Sprintf("|%d", a.T)
 	}
-	nontriv := res.Kind != "panic" && (len(c.A)+len(c.X) > 0)
+	nontriv := res.Kind != "panic" && (len(c.A)+len(c.X) > 0 || c.VX != nil || c.MA != nil)
+	if tag := repTag(c); tag != "" {
+		key += "|" + tag
+		for _, t := range strings.Split(tag, "*") {
+			g.w.Count("operand-rep:" + t)
+		}
+		if c.VX != nil && c.VX.sparse() || c.VY != nil && c.VY.sparse() || c.MA != nil && c.MA.sparse() {
+			g.w.Count("operand-sparse:" + c.Op + ":" + tname(c))
+		}
+	}
 	g.w.Add(coqCase(c, res), c, key+"|"+res.Text, nontriv)
 	g.w.Count("op:" + c.Op)
 	g.w.Count("recv:" + tname(c))
@@ -575,6 +584,10 @@ func (g *gen) generate(n int) {
 			g.emit(Case{Op: "NewConstScalar", Tgt: ta, P: fstr(genF(r, "int"))}, "convert")
 			g.emit(Case{Op: "NullScalar", Tgt: ta}, "convert")
 		}
+		// round 5: vector / matrix operands as sparse containers and views
+		g.generateReps(rep)
+		// round 5: Erf / Erfc / LogErfc on both sides (and both signs) of every branch threshold
+		g.generateErfcStrata(rep)
 	}
 }
 
@@ -638,6 +651,8 @@ func (g *gen) writeCerts(dir string, capGoals, perFile int) map[string]int {
 	stats := map[string]int{}
 	var goals, exact []string
 	nint := 0
+	nlog := 0
+	var lgoals []string // LogErfc integral goals: a few seconds each, own small files
 	for _, k := range keys {
 		e := g.cert[k]
 		fin := func(x float64) bool { return !math.IsNaN(x) && !math.IsInf(x, 0) }
@@ -662,6 +677,27 @@ func (g *gen) writeCerts(dir string, capGoals, perFile int) map[string]int {
 			stats["uncertified:pow-special"]++
 			continue
 		}
+		if e.id == 12 && fin(e.a) && fin(e.r) && e.r != 0 && ((e.a <= -1e-3 && e.a >= -1e6) || (e.a >= 1e-3 && e.a <= 3)) {
+			// special.LogErfc against ln(1 - erf x), erf the integral: cheap and sharp on the whole negative side (erfc in (1,2)),
+			// where no branch of the implementation other than log(erfc x) is legitimate; on the positive side up to 3
+			if nlog < capGoals/4+8 {
+				nlog++
+				_, ex := math.Frexp(e.r)
+				tl := ex - 38
+				if e.a > 0 {
+					tl = ex - 34
+				}
+				lgoals = append(lgoals, fmt.Sprintf("Goal forall sp, Rabs (rfn sp FLogErfc %s - %s) <= %s.\nProof. intro sp; cbv [rfn erfR erfcR]. integral with (i_prec 80, i_fuel 400). Qed.",
+					RD(e.a), RD(e.r), pow2(tl)))
+				stats["logerfc-integral"]++
+				if e.a < 0 {
+					stats["logerfc-integral-negative-side"]++
+				}
+				continue
+			}
+			stats["uncertified:logerfc-cap"]++
+			continue
+		}
 		name, ok := certName[e.id]
 		if !ok {
 			stats["opaque(special/gamma)"]++
@@ -678,7 +714,8 @@ func (g *gen) writeCerts(dir string, capGoals, perFile int) map[string]int {
 		_, ex := math.Frexp(e.r)
 		tol := pow2(ex - 45)
 		if e.id == 10 || e.id == 11 {
-			if math.Abs(e.a) > 5 || e.a == 0 || nint >= capGoals/8+4 {
+			if math.Abs(e.a) > 5 || e.a == 0 || (e.id == 11 && e.a > 3) || nint >= capGoals/8+4 {
+				// (erfc beyond 3 is below 2e-5: 1 - erf cancels, the integral enclosure cannot reach 2^-38 relative)
 				stats["uncertified:erf-cap"]++
 				continue
 			}
@@ -716,6 +753,15 @@ func (g *gen) writeCerts(dir string, capGoals, perFile int) map[string]int {
 		os.WriteFile(filepath.Join(dir, fmt.Sprintf("cert_%d.v", nf)), []byte(body), 0644)
 		nf++
 	}
+	for s := 0; s < len(lgoals); s += 4 {
+		e := s + 4
+		if e > len(lgoals) {
+			e = len(lgoals)
+		}
+		body := hdr + strings.Join(lgoals[s:e], "\n") + "\nDefinition M : list nat := [].\nPrint M.\n"
+		os.WriteFile(filepath.Join(dir, fmt.Sprintf("cert_%d.v", nf)), []byte(body), 0644)
+		nf++
+	}
 	if len(exact) > 0 {
 		body := "From Coq Require Import ZArith List Floats.\nFrom ADV Require Import Base.Corr C02.Model C02.Corr.\nImport ListNotations.\n" +
 			"Definition ex : list bool := [\n  " + strings.Join(exact, ";\n  ") + "].\n" +
@@ -746,13 +792,13 @@ func (g *gen) writeCerts(dir string, capGoals, perFile int) map[string]int {
 		nf++
 	}
 	stats["goal-files"] = nf
-	stats["goals"] = len(goals) + len(exact)
+	stats["goals"] = len(goals) + len(lgoals) + len(exact)
 	return stats
 }
 
 // ---------------------------------------------------------------- main
 
-const header = "From Coq Require Import ZArith List Floats.\nFrom ADV Require Import Base.Corr C02.Model C02.Corr.\nImport ListNotations.\nOpen Scope Z_scope.\n"
+const header = "From Coq Require Import ZArith List Floats.\nFrom ADV Require Import Base.Corr C02.Model C02.ModelVec C02.Corr.\nImport ListNotations.\nOpen Scope Z_scope.\n"
 
 func newWriter(o Opts, name string) *CaseWriter {
 	w := NewCaseWriter(o.Out, name, header, "mism", 330)
